@@ -89,7 +89,7 @@ func runC15(k int, rng *Rng) CaseResult {
 	clockNewCase(clockModeFor(cfg))
 	installHooks(stdHooks())
 	w := NewWorld("C15", rng, cfg, caseDir(k, "c15"))
-	w.predict, w.storeWant = true, true
+	w.predict, w.storeWant, w.ownsTransforms = true, true, true
 	defer w.Cleanup()
 	if !w.OpenCreate() {
 		return w.finish(nil, false, nil)
